@@ -162,6 +162,7 @@ func (st *runState) body(ri *simcheck.RunInfo) *simrt.Sim {
 	}
 	time.Local = time.FixedZone("sim", s.Cfg.TZOffsetMin*60)
 	sim := simrt.New(s.Sched, s.SchedSeed)
+	sim.SetPreempt(s.Preempt, s.SchedSeed)
 	defer sim.Close()
 	st.db = chfake.NewDB(s.Faults, st.nextEv)
 	var sys *System
@@ -751,6 +752,9 @@ func (st *runState) finishWith(ri *simcheck.RunInfo, sim *simrt.Sim, sys *System
 	ri.Steps = sim.Steps
 	ri.SimNanos = int64(time.Since(t0)) - s.Cfg.StartOffsetS*1e9
 	ri.NonTrivial = fired > 0 || sim.Multi > 0
+	if sim.Preempts > 0 {
+		ri.Faults["sched-preempt-between-sync-ops"] += int(sim.Preempts)
+	}
 	st.probes(ri, blocks)
 	var bl []string
 	for i, blk := range blocks {
